@@ -91,6 +91,7 @@ func (in *Interp) streamLoop() *LoopCtx {
 func (in *Interp) streamAppendBytes(st *State, b *BufObj, s BufV, expr ast.Expr, pos token.Pos) {
 	sb := st.bufs[s.ID]
 	sl := in.viewLen(st, s)
+	sl = convResultLen(sb, s, sl)
 	base := b.Len
 	loop := in.streamLoop()
 	switch {
@@ -410,6 +411,12 @@ func (in *Interp) streamMethod(st *State, bv BufV, b *BufObj, name string, call 
 			n := Opq("count")
 			if iv, ok := arg(0).(IntV); ok && iv.T != nil {
 				n = iv.T
+			}
+			// (*bytes.Buffer).Next panics on a negative count
+			if !in.noSites {
+				facts := append([]Fact(nil), st.facts...)
+				in.addSite(&Site{Kind: "count", Buf: "bytes.Buffer", Origin: "lib", Pos: call.Pos(), Text: in.render(st, call), Fn: in.fi.Key, Guard: in.guard(), Expr: call,
+					Needs: []Need{{A: Const(0), B: n, What: "count not negative"}}, Facts: facts})
 			}
 			off := b.Len
 			b.Len = off.Add(n)
